@@ -272,7 +272,7 @@ func ruleReadXRefOrder(c *core.Ctx) {
 		stores := mapStores(g, seen)
 		o.Count(len(stores))
 		if len(stores) < 2 {
-			o.Fail("expected the visited-set to be updated for the section and for /XRefStm, found %d stores", len(stores))
+			o.Unrec("expected the visited-set to be updated for the section and for /XRefStm, found %d stores", len(stores))
 		}
 		// every call that reads a section is dominated by a `seen[x] == false` fact and by a store seen[x] = true
 		for _, cv := range callVertices(g, "pdf.readXRefTable", "pdf.(*Reader).readXRefStream") {
@@ -783,7 +783,7 @@ func ruleStreamLength(c *core.Ctx) {
 				two++
 			}
 		}
-		o.Require(two == 1 && one >= 1, "expected one 2-byte (CRLF) and at least one 1-byte (LF) EOL consumption after 'stream', got %v", adv)
+		o.Shape(two == 1 && one >= 1, "expected one 2-byte (CRLF) and at least one 1-byte (LF) EOL consumption after 'stream', got %v", adv)
 		// the 2-byte advance is guarded by buf[0]=='\r' && buf[1]=='\n'
 		for _, v := range g.Vs {
 			if s, ok := v.AST.(*ast.AssignStmt); ok && s.Tok == token.ADD_ASSIGN {
@@ -1257,7 +1257,7 @@ func ruleObjStmLookup(c *core.Ctx) {
 				o.Fail("the member index is chosen without comparing the header's object number with the requested number")
 			}
 		}
-		o.Require(n >= 1, "selection of the member index not found")
+		o.Shape(n >= 1, "selection of the member index not found")
 		// not found => error or null, never another object: ReadObject dominated by m >= 0
 		for _, cv := range callVerticesSuffix(g, ".ReadObject") {
 			o.At(fn.Site(cv.Call, "reads member"))
@@ -1579,7 +1579,7 @@ func rulePrevChainFollowed(c *core.Ctx) {
 		}
 		o.Require(len(next) >= 1, "the start position is never advanced inside the loop")
 		reads := callVertices(g, "pdf.readXRefTable", "pdf.(*Reader).readXRefStream")
-		o.Require(len(reads) >= 2, "section readers not found")
+		o.Shape(len(reads) >= 2, "section readers not found")
 		for _, rv := range reads {
 			o.Count(1)
 			if g.ReachFrom(rv.V, false, core.AvoidVs(next...))[head] {
